@@ -151,6 +151,39 @@ def run_case(psk: bytes, name: bytes | None, expected: str | None, msgs: list[tu
     return {"problems": problems, **info}
 
 
+def run_interleaved(sessions: list[tuple[bytes, bytes | None, list[tuple[int, bytes]], tuple[int, ...]]], kind: str) -> list[tuple[str, str]]:
+    """Several Noise sessions (own key, own name) alive in one process, their server streams fed alternately chunk by chunk: each connection
+    gets exactly the messages its responder encrypted - cipher state, buffers and counters belong to one helper."""
+    live = []
+    problems: list[tuple[str, str]] = []
+    for psk, name, msgs, cuts in sessions:
+        h, c, t, d = wire.make_noise(noisew.b64(psk), None)
+        d.start()
+        srv = noisew.NoiseServer(psk, name)
+        srv.accept_client_first_write(t.writes[0])
+        st = noisew.ServerStream()
+        srv.server_handshake(st)
+        for ty, p in msgs:
+            srv.add_message(st, ty, p)
+        live.append({"c": c, "d": d, "t": t, "msgs": msgs, "chunks": wire.cuts_to_chunks(st.stream, cuts), "pos": 0})
+    k = 0
+    while any(x["pos"] < len(x["chunks"]) for x in live):
+        x = live[k % len(live)]
+        k += 1
+        if x["pos"] >= len(x["chunks"]):
+            continue
+        obj, ba = wire.wrap_chunk(x["chunks"][x["pos"]], kind)
+        x["pos"] += 1
+        x["d"].feed(obj)
+        wire.scrub(ba)
+    for i, x in enumerate(live):
+        got = [(g[0], bytes(g[1])) for g in x["c"].packets]
+        if got != list(x["msgs"]) or x["c"].fatal or x["d"].escaped or x["t"].closing or x["d"].ready_exc is not None:
+            problems.append(("interleaved-sessions", f"session {i} of {len(live)} fed alternately: delivered {[(a, len(b)) for a, b in got][:5]} of "
+                             f"{[(a, len(b)) for a, b in x['msgs']][:5]}; fatal={[repr(f[0]) for f in x['c'].fatal][:1]} escaped={x['d'].escaped[:1]}"))
+    return problems
+
+
 def cut_classes(cuts: tuple[int, ...], hello_end: int, hs_end: int, data_ends: list[int]) -> list[str]:
     out = set()
     frames = [("hello", 0, hello_end), ("handshake", hello_end, hs_end)]
@@ -260,6 +293,7 @@ def shard(ctx: Ctx) -> None:
             for key, what in r["problems"]:
                 res.violation(f"C03/{key}", f"[session of {n_frames} frames, {clabel}] {what}"[:600], {"psk": "random", "name": b"dev".hex(), "expected": None,
                               "msgs": [[25, f"counter x {n_frames}"]], "cuts": list(cuts[:20]), "kind": "bytes", "long_session": n_frames})
+    interleaved(ctx)
     try:
         from vf.props import c03_s  # noqa: PLC0415
     except ImportError:
@@ -268,7 +302,43 @@ def shard(ctx: Ctx) -> None:
     c03_s.shard(ctx)
 
 
+def interleaved(ctx: Ctx) -> None:
+    rng = ctx.rng
+    res = ctx.res
+    sets = msg_sets(rng, False)
+    for j in range(48 if ctx.thorough else 16):
+        if not ctx.mine(j):
+            continue
+        sess = []
+        for q in range(2 + j % 2):
+            msgs = [m for m in sets[(j + q) % len(sets)] if len(m[1]) < 5000][:6] or [(7, b"")]
+            name = NAMES[(j + q) % len(NAMES)][1]
+            n = 3 + (1 if name is None else len(name) + 2) + 3 + 49 + sum(3 + 4 + len(p) + 16 for _, p in msgs)
+            cuts = tuple(sorted(rng.sample(range(1, n), min(n - 1, rng.randint(2, 12)))))
+            sess.append((os.urandom(32), name, msgs, cuts))
+        kind = wire.BUF_KINDS[j % len(wire.BUF_KINDS)]
+        res.evaluations += 1
+        res.count("chunking/interleaved-sessions")
+        try:
+            probs = run_interleaved(sess, kind)
+        except Exception as e:  # noqa: BLE001
+            res.inconclusive.append(f"interleaved sessions harness: {e!r}")
+            continue
+        if not probs:
+            res.count("messages_delivered_and_checked", sum(len(x[2]) for x in sess))
+            res.sig("interleaved", j)
+        for key, what in probs:
+            res.violation(f"C03/{key}", what, {"interleaved": True, "psk": "random", "name": None, "expected": None,
+                                               "msgs": [[(ty, len(p)) for ty, p in x[2]] for x in sess], "cuts": [list(x[3]) for x in sess], "kind": kind})
+
+
 def replay(spec: dict[str, Any]) -> int:
+    if spec["case"].get("interleaved"):
+        c_ = spec["case"]
+        sess = [(os.urandom(32), b"dev", [(ty, os.urandom(n)) for ty, n in ms], tuple(cs)) for ms, cs in zip(c_["msgs"], c_["cuts"])]
+        probs = run_interleaved(sess, c_["kind"])
+        print("C03 replay (interleaved sessions, fresh keys/payloads of the recorded sizes):", probs)
+        return 1 if probs else 0
     case = spec["case"]
     msgs = []
     for ty, p in case["msgs"]:
